@@ -30,12 +30,14 @@ pub struct SchedReader<'a> {
     pub schedule: &'a [usize],
     pub calls: usize,
     pub fail_at: Option<(usize, ErrorKind)>,
+    /// a second call that fails (same kind), e.g. the one right after
+    pub fail_at2: Option<usize>,
     pub log: Vec<ReadEvent>,
 }
 
 impl<'a> SchedReader<'a> {
     pub fn new(data: &'a [u8], schedule: &'a [usize]) -> SchedReader<'a> {
-        SchedReader { data, pos: 0, schedule, calls: 0, fail_at: None, log: vec![] }
+        SchedReader { data, pos: 0, schedule, calls: 0, fail_at: None, fail_at2: None, log: vec![] }
     }
     pub fn saw_eof(&self) -> bool {
         self.log.iter().any(|e| matches!(e.returned, Ok(0)) && e.offered > 0)
@@ -47,7 +49,7 @@ impl<'a> Read for SchedReader<'a> {
         let k = self.calls;
         self.calls += 1;
         if let Some((at, kind)) = self.fail_at {
-            if at == k {
+            if at == k || self.fail_at2 == Some(k) {
                 self.log.push(ReadEvent { offered: buf.len(), returned: Err(kind) });
                 return Err(io::Error::new(kind, "injected read failure"));
             }
@@ -715,6 +717,12 @@ pub fn c18_check(rep: &mut Report, c: &StreamCase, s: &S, rng: &mut Rng) {
         let kind = *rng.pick(&KINDS);
         let mut rd = SchedReader::new(&c.data, &c.schedule);
         rd.fail_at = Some((k, kind));
+        // every third position: the very next read call fails as well (two
+        // transient faults in a row, e.g. a source answering WouldBlock twice)
+        if k % 3 == 1 {
+            rd.fail_at2 = Some(k + 1);
+            rep.tally("consecutive_read_faults_injected");
+        }
         let r = with_spare(c.spare, || guard(|| stream_find(s, &mut rd)));
         rep.eval();
         rep.tally("read_faults_injected_find");
